@@ -40,13 +40,14 @@ PROBES = [
     "probe.fault_in_record_read", "probe.fault_on_open", "probe.fault_on_stdin", "probe.fault_on_stdout",
     "probe.real_enoent", "probe.real_eisdir", "probe.real_eexist", "probe.real_enotdir", "probe.real_enospc",
     "probe.real_enametoolong", "probe.real_eloop", "probe.real_eio",
-    "probe.nonpcap", "probe.op_after_fault_ok", "probe.eintr_retried", "probe.second_fault",
+    "probe.nonpcap", "probe.op_after_fault_ok", "probe.eintr_retried", "probe.second_fault", "probe.read_on_broken_source",
 ]
 
 EINTR = 4
 ACTION_NAMES = {1: "EIO", 2: "ENOSPC", 3: "EPIPE", 4: "EACCES", 5: "EMFILE", 6: "EINTR", 7: "SHORT_THEN_ENOSPC", 9: "PLAIN_SHORT",
                 12: "EAGAIN",   # EAGAIN: the descriptor was inherited in non-blocking mode and no data is ready
-                20: "ERRNO"}    # any other errno a deployment can meet (argument = errno)
+                20: "ERRNO",    # any other errno a deployment can meet (argument = errno)
+                21: "STICKY"}   # the read fails now and on every later read of that descriptor
 # errno values by call kind for action 20 (network file systems, sockets as stdin/stdout, quotas, odd devices)
 READ_ERRNOS = [22, 12, 116, 110, 104, 6]             # EINVAL ENOMEM ESTALE ETIMEDOUT ECONNRESET ENXIO
 # (EBADF is not injected: a descriptor that was valid cannot start returning it, and Rust's std deliberately
@@ -248,6 +249,15 @@ def systematic_cases():
                 case([{"op": "pcap_stream", "which": "stdin", "var": "p"}] + ([{"op": "pcap_read_next", "h": "p"}] if warm else []) +
                      [{"op": "pcap_read_next", "h": "p", "fault": ["R", nth, act, 0]}, {"op": "pcap_read_all", "h": "p", "n": None, "fault": ["R", nth, act, 0]}], stdin="pcap",
                      note="pcap reads on stdin with %s" % ACTION_NAMES[act])
+    # C1b. a source that stays broken: every later read on it must report the failure again
+    for en in (5, 11):
+        case([{"op": "open", "path": GOOD, "mode": "r", "var": "h"}, {"op": "read", "h": "h", "n": 10, "fault": ["R", 1, 21, en]}, {"op": "read", "h": "h", "n": 10},
+              {"op": "read_line", "h": "h"}, {"op": "read_to_string", "h": "h"}], note="file keeps failing with errno %d" % en)
+        case([{"op": "pcap_open", "path": GOODP, "mode": "r", "var": "p"}, {"op": "pcap_read_next", "h": "p", "fault": ["R", 1, 21, en]}, {"op": "pcap_read_next", "h": "p"},
+              {"op": "pcap_read_all", "h": "p", "n": None}, {"op": "pcap_read_all", "h": "p", "n": 2}], note="pcap file keeps failing with errno %d" % en)
+        case([{"op": "pcap_stream", "which": "stdin", "var": "p"}, {"op": "pcap_read_next", "h": "p"}, {"op": "pcap_read_next", "h": "p", "fault": ["R", 1, 21, en]},
+              {"op": "pcap_read_next", "h": "p"}, {"op": "pcap_read_all", "h": "p", "n": None}], stdin="pcap", note="pcap stream on stdin keeps failing with errno %d" % en)
+        case([{"op": "read_line", "h": "stdin", "fault": ["R", 1, 21, en]}, {"op": "read_line", "h": "stdin"}, {"op": "read", "h": "stdin", "n": 5}], note="stdin keeps failing with errno %d" % en)
     # C2. less common errno values (std maps some of them to special ErrorKinds)
     for en in READ_ERRNOS:
         pre = [{"op": "open", "path": GOOD, "mode": "r", "var": "h"}]
@@ -399,6 +409,8 @@ def gen_random(rng, deep=False):
             o["fault"] = ["R", rng.weighted([(70, 1), (20, 2), (10, 3)]), rng.weighted([(60, 1), (22, 6), (18, 12)]), 0]
             if rng.chance(25):
                 o["fault"] = ["R", o["fault"][1], 20, rng.choice(READ_ERRNOS)]
+            elif rng.chance(15):
+                o["fault"] = ["R", o["fault"][1], 21, rng.choice([5, 11, 116])]
         elif o["op"] in ("write", "flush", "pcap_write"):
             o["fault"] = ["W", rng.weighted([(75, 1), (25, 2)]), rng.weighted([(30, 2), (25, 7), (12, 1), (13, 3), (10, 6), (10, 9)]), rng.choice([1, 3, 100, 4096, 8000])]
             if rng.chance(20):
@@ -665,6 +677,22 @@ def check(model, results):
             inc("probe.op_after_fault_ok")
         prev_fault_fired = bool(injected)
         cls = _cause(op, errs, injected) + ":" + target_kind
+        if any(e.action == 21 for e in evs):
+            # the source is broken from now on (for a pcap handle on stdin: stdin itself)
+            s["broken"] = True
+            if s.get("shared") == "stdin" or h == "stdin":
+                st["stdin"]["broken"] = True
+                for o2 in st.values():
+                    if o2.get("shared") == "stdin":
+                        o2["broken"] = True
+        if s.get("broken") and o in ("read", "read_line", "read_to_string", "pcap_read_next", "pcap_read_all") and not (o == "read" and op.get("n") == 0) \
+                and not (o == "pcap_read_all" and op.get("n") == 0):
+            inc("probe.read_on_broken_source")
+            if tag != "E":
+                viols.append(_viol("%s:noerror:broken_source:%s" % (o, target_kind), "op %d %s on %s: the source has been failing persistently since an earlier operation, but the result is %s %r (a failing source must not look like end of input)" % (
+                    k, o, h, tag, rest[:60])))
+            s["dist"] = True
+            continue
         exp = _expect_use(op, s, info)   # fault-free expectation (also advances the model)
         if target_kind == "procreader" and any(e.call == "R" and e.res >= 0 for e in evs):
             exp = ("?",)
